@@ -399,6 +399,10 @@ func (c *Compiler) Compile(node parser.Node) error {
 		c.emit(node, parser.OpSliceIndex)
 	case *parser.FuncLit:
 		c.enterScope()
+		// a function body is not inside the loops of the enclosing
+		// function: break/continue must not bind to (and patch) them
+		outerLoops, outerLoopIndex := c.loops, c.loopIndex
+		c.loops, c.loopIndex = nil, -1
 
 		for _, p := range node.Type.Params.List {
 			s := c.symbolTable.Define(p.Name)
@@ -407,7 +411,9 @@ func (c *Compiler) Compile(node parser.Node) error {
 			s.LocalAssigned = true
 		}
 
-		if err := c.Compile(node.Body); err != nil {
+		err := c.Compile(node.Body)
+		c.loops, c.loopIndex = outerLoops, outerLoopIndex
+		if err != nil {
 			return err
 		}
 
